@@ -51,6 +51,10 @@ def validate(ctx, trace_path, mode, label):
         seg = ctx.segment(keep, b)
         line = keep[b - 1]
         pre = seg[-2]["post"] if len(seg) >= 2 else None
+        if line.get("a") == "Persist":
+            ctx.violation("persist:changed", "storing and restoring the order table (serde round trip) changed it: %s -> %s [%s, line %d]" % (
+                json.dumps(pre), json.dumps(line["post"]), label, b), {"mode": mode, "scenario": scenario_of(seg)})
+            continue
         if line.get("a") == "Batch":
             evs = line["evs"]
             changed = sorted(c for c in line["post"] if not pre or pre.get(c) != line["post"][c])
